@@ -1154,7 +1154,7 @@ def run(cfg):
     # part (c)
     bodies = C_BODIES_Q if quick else C_BODIES_T
     ca = bfs.search(c_make_expand(bodies, C_ARG_VALUES_Q if quick else C_ARG_VALUES_T, False), cfg1,
-                    cfg.pick(4, 7), init_key=CModel().key())
+                    cfg.pick(4, 6), init_key=CModel().key())
     cb = bfs.search(c_make_expand(C_BODIES_B, C_ARG_VALUES_B, True), cfg1, cfg.pick(6, 9), init_key=CModel().key())
     # thorough: depth 6 closes the model's state space ((bodies+1)^3 states, all reachable in <= 5 operations), so
     # every wrapper call is judged in every state and the last layer finds no new state
